@@ -157,6 +157,9 @@ func checkC02(c *Ctx) {
 	checkQueues(c, e)
 	checkChildCounters(c, e, "R6")
 	checkFlushGate(c, "R8")
+	c.Rule("R9", "a writer blocked in a socket write is woken: the connection is closed after the reader returns and before the writer is joined (shared with C07.R2); no lock is held at a join that the joined goroutines need (shared with C09.R7)")
+	checkCloseBeforeJoin(c, "R9")
+	c.withAlias(map[string]string{"R7": "R9"}, func() { checkWaitForCycles(c) })
 
 	// ---------------- R7
 	for _, tn := range []string{"simpleRequest", "rawRequest"} {
